@@ -21,6 +21,7 @@ import PoetryVerif.Proofs.EqHashDep
 import PoetryVerif.Proofs.EqHashParse
 import PoetryVerif.Proofs.EqHashAlgOps
 import PoetryVerif.Proofs.EqHashUnionAllows
+import PoetryVerif.Proofs.EqHashDomain
 import PoetryVerif.Proofs.VersionParse
 import PoetryVerif.Proofs.VRangeSpecSet
 import PoetryVerif.Proofs.VRangeTextU
@@ -432,6 +433,112 @@ theorem marker_coherent_compact (t : String) (syn : Syn) (m : M) (hp : parseText
   rw [mCoherent_iff_good]
   exact good_of_Coherent m (compactRaw_sem ⟨[], none⟩ syn m h hc).1
 
+/-! ### the two leaf facts discharged on the domain of the constructor and text theorems
+
+Domain (`FullQLP C E`, Proofs/MarkerPrint4L.lean, the widest leaf class with a hypothesis-free `LeafSpec`): string
+variables defined in `E` with `==`, `!=` (quotable values) and reversed `in` / `not in`; `extra == / !=`;
+`python_version` with the six comparison operators, `~=` and `in` / `not in` lists of `X.Y`; `python_full_version` with
+the six comparison operators (one to three release components) and `~=`.  On it both facts hold with NO hypothesis:
+every `SingleMarker` is rebuilt from its own key by the constructor (`fullQLP_self`: the strong form of coherence),
+`_merge_single_markers` stays inside (C07's `leafSpec_fullQLP`) and atomic leaves keep their class (`mergeClosed_AS`, for
+every operand).  `C` is the set of `not in` values (any chain under the substring order, C07); `E` only says which
+variables are defined (coherence itself does not depend on `E`). -/
+
+/-- **`parse_marker` on a text over the domain returns a coherent marker — hypothesis-free** -/
+theorem marker_coherent_parse_domain {C : String → Prop} {E : Env}
+    (hC : ∀ u v, C u → C v → Generic.strIn u v = true ∨ Generic.strIn v u = true)
+    {ex : List String} (hX : E.extras = some ex) {X Y Z : Nat} (hE : EnvPy E X Y Z)
+    (text : String) (syn : Syn) (m : M) (hp : parseText text = .ok syn) (hi : SynItems (FullQLP C E) syn) :
+    (parseMarker text = .ok m → mCoherent m ∧ M.Good (CohDomLeaf C E) m) ∧
+    (parseMarkerTop text = .ok m → mCoherent m ∧ M.Good (CohDomLeaf C E) m) := by
+  have key : parseMarker text = .ok m → mCoherent m ∧ M.Good (CohDomLeaf C E) m := fun h =>
+    have g := parseMarker_dom hC hX hE text syn m hp hi h
+    ⟨good_coherent_of_dom m g, g⟩
+  exact ⟨key, fun h => key ((parseMarkerTop_ok_iff text m).1 h)⟩
+
+/-- **∩, ∪, cnf, dnf keep a marker over the domain coherent (and in the domain) — hypothesis-free**, every fuel and
+recursion stack -/
+theorem marker_coherent_algebra_domain {C : String → Prop} {E : Env}
+    (hC : ∀ u v, C u → C v → Generic.strIn u v = true ∨ Generic.strIn v u = true)
+    {ex : List String} (hX : E.extras = some ex) {X Y Z : Nat} (hE : EnvPy E X Y Z)
+    (a b r : M) (ha : M.Good (CohDomLeaf C E) a) (hb : M.Good (CohDomLeaf C E) b) (fuel : Nat) (stk : Stack) :
+    (mIntersect fuel stk a b = .ok r → mCoherent r ∧ M.Good (CohDomLeaf C E) r) ∧
+    (mUnion fuel stk a b = .ok r → mCoherent r ∧ M.Good (CohDomLeaf C E) r) ∧
+    (cnf fuel stk a = .ok r → mCoherent r ∧ M.Good (CohDomLeaf C E) r) ∧
+    (dnf fuel stk a = .ok r → mCoherent r ∧ M.Good (CohDomLeaf C E) r) := by
+  have g := algebra_dom hC hX hE fuel
+  exact ⟨fun h => ⟨good_coherent_of_dom r (g.inter stk a b r ha hb h), g.inter stk a b r ha hb h⟩,
+    fun h => ⟨good_coherent_of_dom r (g.uni stk a b r ha hb h), g.uni stk a b r ha hb h⟩,
+    fun h => ⟨good_coherent_of_dom r (g.cnf stk a r ha h), g.cnf stk a r ha h⟩,
+    fun h => ⟨good_coherent_of_dom r (g.dnf stk a r ha h), g.dnf stk a r ha h⟩⟩
+
+/-- every leaf of the domain satisfies the STRONG form of coherence: the constructor applied to the leaf's own
+`(name, operator, value, operand order)` returns the leaf -/
+theorem marker_domain_leaf_rebuilt {C : String → Prop} {E : Env} (s : Single) (h : FullQLP C E (.single s)) :
+    mkSingle s.name (itemConstraintString s.op s.value s.swapped) s.swapped = .ok s := fullQLP_self h
+
+/-- whatever `_merge_single_markers` returns (ANY operands), an `AtomicMultiMarker` holds a `MultiConstraint` and an
+`AtomicMarkerUnion` a `UnionConstraint` when the operands do -/
+theorem merge_keeps_atomic_class : MergeClosed AS := mergeClosed_AS
+
+/-- the item forms of the domain (each builds a leaf of `FullQLP C E`) -/
+theorem marker_domain_items {C : String → Prop} {E : Env} :
+    (∀ n, n ∈ plainStringVars → (∃ v, E.get? n = some v) → ∀ a : Generic.Atom, a.x = false → a.isEqNe = true →
+      QuotableValue a.value → AtomItems (FullQLP C E) (.item n a.op.str a.value false)) ∧
+    (∀ n ops gop v, (ops, gop) ∈ inOps → n ∈ plainStringVars → PlainTok v → ValOk v → (∃ ev, E.get? n = some ev) →
+      (gop = Generic.Op.nc → C v) → AtomItems (FullQLP C E) (.item n ops v true)) ∧
+    (∀ a : Generic.Atom, a.x = true → a.isEqNe = true → QuotableValue a.value →
+      AtomItems (FullQLP C E) (.item "extra" a.op.str a.value false)) ∧
+    (∀ sop ops, (sop, ops) ∈ pvOps → ∀ a b,
+      AtomItems (FullQLP C E) (.item "python_version" ops (Version.relText [a, b]) false)) ∧
+    (∀ a b, AtomItems (FullQLP C E) (.item "python_version" "~=" (Version.relText [a, b]) false)) ∧
+    (∀ isIn p0 rest, (∀ q ∈ rest, SepRun q.1) →
+      AtomItems (FullQLP C E) (.item "python_version" (listOp isIn) (verList2 p0 rest) false)) ∧
+    (∀ sop ops, (sop, ops) ∈ pvOps → ∀ x r, r.length ≤ 2 →
+      AtomItems (FullQLP C E) (.item "python_full_version" ops (Version.relText (x :: r)) false)) ∧
+    (∀ a b c, AtomItems (FullQLP C E) (.item "python_full_version" "~=" (Version.relText [a, b, c]) false)) :=
+  ⟨fun n hn hev a hx he hq => item_string n hn hev a hx he hq,
+   fun n ops gop v hop hn hv hq hev hc => item_reversed n ops gop v hop hn hv hq hev hc,
+   fun a hx he hq => item_extra a hx he hq,
+   fun sop ops h a b => item_python_version h a b,
+   fun a b => item_python_version_compat a b,
+   fun isIn p0 rest hs => item_python_version_list isIn p0 rest hs,
+   fun sop ops h x r hr => item_python_full_version h x r hr,
+   fun a b c => item_python_full_version_compat a b c⟩
+
+def exEnvDom : Env :=
+  ⟨[("python_version", "3.9"), ("python_full_version", "3.9.1"), ("sys_platform", "linux")], some []⟩
+
+def exSynDom : Syn :=
+  .more (.item "python_version" ">=" "3.8" false) false
+    (.one (.paren (.more (.item "sys_platform" "!=" "x" false) true (.one (.item "extra" "==" "a" false)))))
+
+/-- the hypotheses are satisfiable: `python_version >= "3.8" and (sys_platform != "x" or extra == "a")` -/
+example : exSynDom.text = "python_version >= \"3.8\" and (sys_platform != \"x\" or extra == \"a\")" ∧
+    parseText exSynDom.text = .ok exSynDom ∧
+    SynItems (FullQLP (fun _ => False) exEnvDom) exSynDom ∧ exEnvDom.extras = some [] ∧ EnvPy exEnvDom 3 9 1 := by
+  have qx : QuotableValue "x" :=
+    ⟨⟨⟨by decide, by intro d hd; have : d = 'x' := by simpa using hd
+                     subst this; unfold tokChar; decide⟩, by decide⟩,
+      by intro d hd; have : d = 'x' := by simpa using hd
+         subst this; decide⟩
+  have qa : QuotableValue "a" :=
+    ⟨⟨⟨by decide, by intro d hd; have : d = 'a' := by simpa using hd
+                     subst this; unfold tokChar; decide⟩, by decide⟩,
+      by intro d hd; have : d = 'a' := by simpa using hd
+         subst this; decide⟩
+  have v38 : ValOk "3.8" := by
+    intro d hd
+    have : d = '3' ∨ d = '.' ∨ d = '8' := by simpa using hd
+    rcases this with rfl | rfl | rfl <;> decide
+  refine ⟨by decide +kernel, parseText_text exSynDom ⟨⟨by decide, by decide, v38⟩, ⟨by decide, by decide, qx.2⟩,
+    ⟨by decide, by decide, qa.2⟩⟩, ?_, rfl, ⟨rfl, rfl⟩⟩
+  refine ⟨?_, ?_⟩
+  · exact item_python_version (sop := .ge) (ops := ">=") (by decide) 3 8
+  · simp only [SynItems, AtomItems]
+    exact ⟨item_string "sys_platform" (by decide) ⟨"linux", rfl⟩ ⟨"x", .ne, false⟩ rfl rfl qx,
+      item_extra ⟨"a", .eq, true⟩ rfl rfl qa⟩
+
 /-- the remaining obligation, visible: the two leaf-level facts (see the section comment) -/
 def marker_coherent_full_statement : Prop := marker_coherent_leaf_obligations
 
@@ -515,6 +622,31 @@ theorem specification_hash_no_history (a b : Dep.Spec) (h1 : a.completeName = b.
 re-parse of its own text, …) -/
 theorem derived_specification_beq_hash (s t : Dep.Spec) (fs : List String)
     (h : (specWithFeatures s fs).beq t = true) : specHash (specWithFeatures s fs) = specHash t := specHash_eq h
+
+/-- **deriving commutes with the hash input** (the class of the seeded changes C18-1 / round 3: a memoised hash or a
+cached `complete_name` copied along by `with_features()` / `without_features()`): the hash input of the derived object is
+this explicit function of the ancestor's `name`, `source_type`, `source_url`, `source_subdirectory` and of the NEW feature
+list — the ancestor's own features, and whether / how often the ancestor was hashed before, do not occur (the model has
+no cache: `specHash` is a pure function of the current fields) -/
+theorem derived_hash_input (d : Dep.Spec) (fs : List String) :
+    specHash (specWithFeatures d fs) =
+      (if Dep.truthy d.sourceType then
+        .xor [.str (d.name ++ Dep.featureSuffix (Dep.normFeatures fs)), optStrHash d.sourceType,
+          optStrHash (orNone d.sourceUrl), optStrHash (orNone d.sourceSubdirectory)]
+       else .str (d.name ++ Dep.featureSuffix (Dep.normFeatures fs))) ∧
+    specHash (specWithoutFeatures d) = specHash (specWithFeatures d []) := ⟨rfl, rfl⟩
+
+/-- … hence two ancestors that differ only in their features (and in their history) derive equal hash inputs, and the
+same holds for `Dependency.with_features` (`depHash` is the specification's) -/
+theorem derived_hash_independent_of_ancestor (d d' : Dep.Spec) (fs : List String) (h1 : d.name = d'.name)
+    (h2 : d.sourceType = d'.sourceType) (h3 : d.sourceUrl = d'.sourceUrl)
+    (h4 : d.sourceSubdirectory = d'.sourceSubdirectory) :
+    specHash (specWithFeatures d fs) = specHash (specWithFeatures d' fs) := by
+  rw [(derived_hash_input d fs).1, (derived_hash_input d' fs).1, h1, h2, h3, h4]
+
+theorem dependency_derived_hash (d : Dep.Dep) (fs : List String) :
+    depHash (depWithFeatures d fs) = specHash (specWithFeatures d.spec fs) ∧
+    depHash (depWithoutFeatures d) = specHash (specWithoutFeatures d.spec) := ⟨rfl, rfl⟩
 
 example : ∃ s, Dep.Spec.make "Foo_Bar" none none none none none ["Extra_A"] = .ok s ∧
     (specWithoutFeatures s).beq { s with prettyName := "foo.bar", features := [] } = true ∧
